@@ -1088,9 +1088,13 @@ class Store:
                 self.recursive_end_process(value[subval])
         return
     
-    def _delete_path(self, path):
+    def _delete_path(self, path, end_processes=True):
         """
         Delete the subtree at the given path.
+
+        With ``end_processes=False`` the subtree is only detached (it
+        lives on elsewhere, as after a move) and the workers of its
+        parallel processes are left running.
         """
 
         if not path:
@@ -1102,7 +1106,8 @@ class Store:
         if remove in target.inner:
             lost = target.inner[remove]
             # End any parallel processes to be deleted
-            self.recursive_end_process(target.inner[remove])
+            if end_processes:
+                self.recursive_end_process(target.inner[remove])
             del target.inner[remove]
             return lost
         return None
@@ -1290,7 +1295,7 @@ class Store:
                 flow_updates.append((
                     process_path, process.flow))
 
-        self._delete_path(source_path)
+        self._delete_path(source_path, end_processes=False)
 
         here = self.path_for()
         source_absolute = tuple(here + source_path)
